@@ -135,6 +135,8 @@ class Gen:
             },
         }
         cfg.update(self.force.get("cfg", {}))
+        if self.force.get("interleave"):
+            cfg["n_train"] = max(2, cfg["n_train"])  # a nested build can always take OTHER data than its host
         return cfg
 
     # ----------------------------------------------------------------- frames
@@ -608,11 +610,12 @@ class Gen:
             items.append(it)
         if want_group and not any(it.group for it in items):
             items.append(self.group_item(fam))
-        if self.force.get("interleave") and r.random() < 0.7 and not any("uf(" in it.text for it in items):
+        if self.force.get("interleave") and r.random() < 0.7 and not any("uf(" in it.text or "ut(" in it.text for it in items):
             # interleave phase: the formula calls the user function through which another operation is issued,
             # at a random position among the terms (work done before it and work left to do after it)
             v = r.choice(NUM_COLS)
-            items.insert(r.randrange(len(items) + 1), Item(f"uf({v})", [v], fams=["uf"]))
+            fn = r.choice(["uf", "uf", "ut"])  # plain user function / user-registered stateful transform
+            items.insert(r.randrange(len(items) + 1), Item(f"{fn}({v})", [v], fams=[fn]))
         # response
         ropts = [("y", 6)]
         if "resp_level" in fam:
@@ -1152,13 +1155,27 @@ def _fold(self, ops):
         b = ops[i + 1] if i + 1 < len(ops) else None
         ok = (b is not None and a["op"] in ("build", "eval") and b["op"] in ("build", "eval")
               and not a.get("fault") and not b.get("fault")
-              and "uf(" in (a["formula"] if a["op"] == "build" else text.get(a.get("root"), ""))
+              and any(s in (a["formula"] if a["op"] == "build" else text.get(a.get("root"), ""))
+                      for s in ("uf(", "ut("))
               and not (b["op"] == "eval" and (b["target"] == a.get("id") or b.get("root") == a.get("id"))))
         if ok and r.random() < 0.6:
             a = dict(a)
             a["nested"] = b
             out.append(a)
             i += 2
+        elif (a["op"] == "build" and not a.get("fault") and any(s in a["formula"] for s in ("uf(", "ut("))
+              and r.random() < 0.45):
+            # the user code called by the formula builds THE SAME model on other data (a bootstrap / cross-validation
+            # helper does exactly this) while the model is being built: a twin build nested into its host
+            others = sorted(f for f in self.frames if f.startswith("T") and f != a["frame"])
+            twin = {k: v for k, v in a.items() if k not in ("n", "nested")}
+            twin["id"] = f"{a['id']}x"
+            if others and r.random() < 0.8:
+                twin["frame"] = r.choice(others)
+            a = dict(a)
+            a["nested"] = twin
+            out.append(a)
+            i += 1
         else:
             out.append(a)
             i += 1
